@@ -90,7 +90,7 @@ func (m *machine) LowerConditionalBranch(b *ssa.Instruction) {
 			cc = cc.invert()
 		}
 
-		if !m.tryLowerBandToFlag(x, y) {
+		if !m.tryLowerBandToFlag(x, y, c) {
 			m.lowerIcmpToFlag(x, y, signed)
 		}
 		cbr := m.allocateInstr()
@@ -123,10 +123,16 @@ func (m *machine) LowerConditionalBranch(b *ssa.Instruction) {
 	}
 }
 
-func (m *machine) tryLowerBandToFlag(x, y ssa.Value) (ok bool) {
+func (m *machine) tryLowerBandToFlag(x, y ssa.Value, c ssa.IntegerCmpCond) (ok bool) {
 	xx := m.compiler.ValueDefinition(x)
 	yy := m.compiler.ValueDefinition(y)
-	if xx.IsFromInstr() && xx.Instr.Constant() && xx.Instr.ConstantVal() == 0 {
+	// ANDS sets N and Z of "band cmp 0" but clears C, which SUBS against zero would set: the unsigned orderings
+	// cannot use it, and with the zero on the left the operands are swapped, which only the symmetric conditions allow.
+	symmetric := c == ssa.IntegerCmpCondEqual || c == ssa.IntegerCmpCondNotEqual
+	if !symmetric && !c.Signed() {
+		return false
+	}
+	if symmetric && xx.IsFromInstr() && xx.Instr.Constant() && xx.Instr.ConstantVal() == 0 {
 		if m.compiler.MatchInstr(yy, ssa.OpcodeBand) {
 			bandInstr := yy.Instr
 			m.lowerBitwiseAluOp(bandInstr, aluOpAnds, true)
@@ -1974,7 +1980,7 @@ func (m *machine) lowerExitIfTrueWithCode(execCtxVReg regalloc.VReg, cond ssa.Va
 	x, y, c := cvalInstr.IcmpData()
 	signed := c.Signed()
 
-	if !m.tryLowerBandToFlag(x, y) {
+	if !m.tryLowerBandToFlag(x, y, c) {
 		m.lowerIcmpToFlag(x, y, signed)
 	}
 
